@@ -36,6 +36,7 @@ pub fn blocks(thorough: bool) -> Vec<Block> {
         b.push(Block::new(u_kind_pairs(1, 2, false), class_cfgs(&[0]), "64 class subsets"));
         b.push(Block::new(u_runs(), vec![Cfg::new(D), Cfg::new(W), Cfg::new(S), Cfg::new(ND), Cfg::new(NW), Cfg::new(NS), Cfg::new(D | NW | S)], "d, w, s, D, W, S, d+W+s"));
         b.push(Block::new(u_many(30), vec![Cfg::new(D), Cfg::new(W), Cfg::new(D | NW), Cfg::new(ND | W), Cfg::new(D | R)], "d, w, d+W, D+w, d+r"));
+        b.push(Block::new(u_prefix_suffix2(4), vec![Cfg::new(D), Cfg::new(W)], "d, w"));
         b.push(Block::new(u_kind_triples(), vec![Cfg::new(D | NW | S), Cfg::new(W | NS), Cfg::new(ND)], "d+W+s, w+S, D"));
         b.push(Block::new(u_corpus("U_large_cls", verif_seed() + 5, 500, &["a", "1", "-", "\u{663}"], (8, 14), (3, 6)), vec![Cfg::new(D), Cfg::new(W), Cfg::new(D | NW), Cfg::new(D | W | R)], "d, w, d+W, d+w+r (corpus of large sets)"));
     } else {
@@ -56,6 +57,7 @@ pub fn blocks(thorough: bool) -> Vec<Block> {
         b.push(Block::new(u_kind_pairs(2, 2, false), vec![Cfg::new(D), Cfg::new(W), Cfg::new(S), Cfg::new(ND), Cfg::new(NW), Cfg::new(NS), Cfg::new(D | NW | S), Cfg::new(S | ND)], "d, w, s, D, W, S, d+W+s, s+D"));
         b.push(Block::new(u_runs(), class_cfgs(&[0, I]), "64 class subsets x {{}, i}"));
         b.push(Block::new(u_many(100), vec![Cfg::new(D), Cfg::new(W), Cfg::new(D | NW), Cfg::new(ND | W), Cfg::new(D | R), Cfg::new(S | ND)], "d, w, d+W, D+w, d+r, s+D"));
+        b.push(Block::new(u_prefix_suffix2(4), vec![Cfg::new(D), Cfg::new(W), Cfg::new(D | W), Cfg::new(D | R), Cfg::new(NW | D)], "d, w, d+w, d+r, W+d"));
         b.push(Block::new(u_kind_triples(), class_cfgs(&[0]), "64 class subsets"));
     }
     b
